@@ -56,7 +56,17 @@ def _template(PcfgGrammar):
                 want_g = {t: [{'values': list(v), 'prob': p} for p, v in groups] for t, groups in types.items()}
                 want_b = [{'prob': p, 'replacements': list(r)} for p, r in base]
                 got_g = {t: real.grammar.get(t) for t in want_g if want_g[t]}
-                if got_g != {t: v for t, v in want_g.items() if v} or real.base != want_b:
+                # (the LAYOUT is compared, not the content: what the loader makes of the values and flags is the subject of the on-disk layers, and a
+                # loader that reads a wrong value must not turn the in-memory checks into harness errors)
+
+                def shape(x):
+                    if isinstance(x, dict):
+                        return ('dict', tuple(sorted((k if isinstance(k, str) and not k[:1].isupper() else type(k).__name__, shape(v)) for k, v in x.items())))
+                    if isinstance(x, (list, tuple)):
+                        return (type(x).__name__, tuple(sorted(set(shape(v) for v in x))))
+                    return type(x).__name__
+                same_types = isinstance(real.grammar, dict) and all(isinstance(k, str) for k in real.grammar) and 'D1' in real.grammar
+                if not same_types or shape({t: v for t, v in real.grammar.items() if t in want_g and v}) != shape({t: v for t, v in want_g.items() if v}) or shape(real.base) != shape(want_b):
                     _TEMPLATES[PcfgGrammar] = RuntimeError('harness: the format of a loaded grammar changed (loader gives grammar %r / base %r; the in-memory rulesets are built as %r / %r)'
                                                            % ({k: got_g[k] for k in list(got_g)[:2]}, real.base[:2], {k: want_g[k] for k in list(want_g)[:2]}, want_b[:2]))
                     return _TEMPLATES[PcfgGrammar]
